@@ -29,6 +29,9 @@ type cnr struct {
 	eacl                  *eaclRec
 	alias                 string
 	meta                  bool
+	// reserved: the alias lives in a domain the committee registered for itself; its records can be changed
+	// only with the committee's witness
+	reserved bool
 }
 
 type cmodel struct {
@@ -104,7 +107,14 @@ func makeEACL(cid []byte, verLen int, tag int) []byte {
 }
 
 func newEnv(b *runner.Batch, n int, fee, aliasFee int64, ownersAreMembers bool) (*env, error) {
-	w, err := world.New(world.Options{N: n, Seed: b.Seed, Batch: b.Index})
+	// every third world with a committee of several members has a single consensus node: the Alphabet is the
+	// committee, not the validator set (seeded change C05-7)
+	nval := 0
+	if n > 1 && b.Index%3 == 1 {
+		nval = 1
+		b.Hit("committee-larger-than-the-validator-set")
+	}
+	w, err := world.New(world.Options{N: n, Seed: b.Seed, Batch: b.Index, Validators: nval})
 	if err != nil {
 		return nil, err
 	}
